@@ -243,8 +243,45 @@ func (engine *Engine) TakeSnapshot() error {
 		return err
 	}
 
-	// os.Create will replace the old manifest file
-	mf, err = os.Create(path.Join(dirname, "manifest.bin"))
+	// Create snapshot directory
+	snapshotDir := path.Join(engine.directory, "snapshots", fmt.Sprintf("%d", msec))
+	if err := os.MkdirAll(snapshotDir, os.ModePerm); err != nil {
+		return err
+	}
+	verif.Point("snap.mkdir")
+
+	// Create snapshot file. It is written under a temporary name and renamed once it is complete,
+	// so that a state.bin that exists is always a whole snapshot.
+	f, err := os.OpenFile(path.Join(snapshotDir, "state.bin.tmp"), os.O_WRONLY|os.O_CREATE|os.O_TRUNC, os.ModePerm)
+	if err != nil {
+		log.Println(err)
+		return err
+	}
+	defer func() {
+		if err := f.Close(); err != nil {
+			log.Println(err)
+		}
+	}()
+	verif.Point("snap.state.create")
+
+	// Write state to file
+	if _, err = f.Write(out); err != nil {
+		return err
+	}
+	verif.Point("snap.state.write", len(out))
+	if err = f.Sync(); err != nil {
+		log.Println(err)
+	}
+	verif.Point("snap.state.sync")
+	if err = os.Rename(path.Join(snapshotDir, "state.bin.tmp"), path.Join(snapshotDir, "state.bin")); err != nil {
+		log.Println(err)
+		return err
+	}
+
+	// The state file is complete and on disk: only now publish it in the manifest.
+	// The manifest is written to a temporary file and renamed into place, so that a crash at any
+	// point leaves either the previous manifest (and snapshot) or the new one.
+	mf, err = os.Create(path.Join(dirname, "manifest.bin.tmp"))
 	if err != nil {
 		log.Println(err)
 		return err
@@ -274,36 +311,10 @@ func (engine *Engine) TakeSnapshot() error {
 		return err
 	}
 	verif.Point("snap.manifest.sync")
-
-	// Create snapshot directory
-	dirname = path.Join(engine.directory, "snapshots", fmt.Sprintf("%d", msec))
-	if err := os.MkdirAll(dirname, os.ModePerm); err != nil {
-		return err
-	}
-	verif.Point("snap.mkdir")
-
-	// Create snapshot file
-	f, err := os.OpenFile(path.Join(dirname, "state.bin"), os.O_WRONLY|os.O_CREATE|os.O_TRUNC, os.ModePerm)
-	if err != nil {
+	if err = os.Rename(path.Join(dirname, "manifest.bin.tmp"), path.Join(dirname, "manifest.bin")); err != nil {
 		log.Println(err)
 		return err
 	}
-	defer func() {
-		if err := f.Close(); err != nil {
-			log.Println(err)
-		}
-	}()
-	verif.Point("snap.state.create")
-
-	// Write state to file
-	if _, err = f.Write(out); err != nil {
-		return err
-	}
-	verif.Point("snap.state.write", len(out))
-	if err = f.Sync(); err != nil {
-		log.Println(err)
-	}
-	verif.Point("snap.state.sync")
 
 	// Set the latest snapshot in unix milliseconds
 	engine.setLatestSnapshotTimeFunc(msec)
